@@ -84,6 +84,18 @@ def check_design(sub, item):
                 if replay_design(data):
                     sub.violation(f'length:{key}', f'{label}: {problems[0]}', data)
             return 'trial-count'
+        # the variable layout does not match the documented applicability: confirm through a real sequence
+        from .sat import solve
+        sat, m = solve(comp.clauses)
+        if sat and not comp.errors:
+            seq = decode_model(comp, {v: bool(m[v]) for v in range(1, comp.support + 1)})
+            ok, bad = validate(desc, seq)
+            if not ok:
+                sub.case(key, nontrivial=True)
+                data = {'desc': desc, 'query': 'layout'}
+                sub.violation(f'layout:{key}', f'{label}: {problems[0]}; the formula has a model decoding to {seq} which '
+                              f'violates {bad[:4]}', data)
+                return 'layout'
         raise HarnessError(f'{label}: cannot link variables: {problems}')
     if sem.status != 'ok':
         import z3
@@ -140,6 +152,13 @@ def replay_design(data):
     comp = compile_design(desc)
     if q in ('length', 'trials'):
         return comp.T_lib != data['expected']
+    if q == 'layout':
+        from .sat import solve
+        sat, m = solve(comp.clauses)
+        if not sat:
+            return False
+        seq = decode_model(comp, {v: bool(m[v]) for v in range(1, comp.support + 1)})
+        return not validate(desc, seq)[0]
     if q == 'errors-but-valid':
         import sweetpea as sp
         with quiet():
